@@ -310,6 +310,15 @@ fn check_regex(rep: &mut Report, w: &W, range: Option<R>, patterns: &[&str], all
                         }
                     }
                 }
+                // the merge of the expressions' matches against the Lean model (StamModel/RegexMerge.lean, `rx` lines): the
+                // regex library's matches per expression go in, the merged stream is compared
+                if ms.len() < 300 && exprs.iter().all(|r| r.captures_len() == 1) {
+                    let lists: Vec<String> = (0..exprs.len()).map(|xi| { let l: Vec<String> = want_all.iter().filter(|x| x.0 == xi).map(|x| format!("{}-{}", x.2[0].0, x.2[0].1)).collect(); if l.is_empty() { "-".to_string() } else { l.join(",") } }).collect();
+                    let out = if got_all.is_empty() { "-".to_string() } else { got_all.iter().map(|g| format!("{}:{}-{}", g.0, g.2[0].0, g.2[0].1)).collect::<Vec<_>>().join(" ") };
+                    rep.count(if allow_overlap { "regex-merge:with-overlap" } else { "regex-merge:without-overlap" });
+                    // (the text, the range and the expressions follow so that the line can be replayed on the implementation; the model reads the first two fields)
+                    rep.model_case(vec![format!("rx {} {} {} {} {} {}", allow_overlap as u8, lists.join("/"), hexs(&w.text), b, e, patterns.iter().map(|p| hexs(p)).collect::<Vec<_>>().join(","))], vec![out], "regex-merge");
+                }
                 let mut last = 0usize;
                 for m in ms {
                     let re = &exprs[m.0];
@@ -416,6 +425,24 @@ fn unhex(s: &str) -> String {
     if s == "-" { return String::new(); }
     let bytes: Vec<u8> = (0..s.len() / 2).filter_map(|i| u8::from_str_radix(&s[2 * i..2 * i + 2], 16).ok()).collect();
     String::from_utf8_lossy(&bytes).to_string()
+}
+
+/// an `rx` line on the implementation: the search with the expressions of the line on its text
+pub fn exec_rx(line: &str) -> String {
+    let t: Vec<&str> = line.split_whitespace().collect();
+    if t.len() != 7 { return "bad-op".into(); }
+    let text = unhex(t[3]);
+    let w = world(&text, &[]);
+    let (b, e): (usize, usize) = (t[4].parse().unwrap_or(0), t[5].parse().unwrap_or(0));
+    let exprs: Vec<Regex> = match t[6].split(',').map(|p| Regex::new(&unhex(p))).collect::<Result<Vec<_>, _>>() { Ok(v) => v, Err(_) => return "bad-op".into() };
+    let range = if b == 0 && e == w.chars.len() { None } else { Some((b, e)) };
+    let r = guarded(std::panic::AssertUnwindSafe(|| {
+        with_target(&w, range, |_, res, sel| {
+            let it = match sel { None => res.find_text_regex(&exprs, None, t[1] == "1"), Some(s) => s.find_text_regex(&exprs, None, t[1] == "1") };
+            match it { Ok(it) => it.take(300).map(|m| format!("{}:{}-{}", m.expression_index(), m.textselections()[0].begin(), m.textselections()[0].end())).collect::<Vec<_>>().join(" "), Err(_) => "err".to_string() }
+        })
+    }));
+    match r { Ok(s) if s.is_empty() => "-".into(), Ok(s) => s, Err(m) => format!("panic:{}", m.chars().take(50).collect::<String>()) }
 }
 
 pub fn exec_line(line: &str) -> String {
